@@ -4,6 +4,9 @@ import json, os
 V = os.path.dirname(os.path.dirname(os.path.abspath(__file__)))
 TECH = "contract-based deductive verification: VCs generated from the real Python AST (pyvc) against sidecar contracts, discharged by z3/cvc5; counterexamples replayed natively"
 CLAIMS = {
+ "C02": dict(ref="§4 C02",
+   text="Conditional proof (scipy label/find_objects contracts) for arbitrary images/backgrounds/noise (symbolic shape, NaN flags, rms>0, 0<flood<=seed): the mask given to label() is exactly finite AND |snr|>=flood; label called with the 3x3 structure; a label yields an island iff one of its OWN pixels has |snr|>seed (both directions, via witnesses of np.any); the island's bounding box is the label's tight box and its mask is False exactly on own pixels (hence disjoint islands, blanks excluded); one island per accepted label in label order (loop invariant over the ghost count ACC); inputs unmodified; accept rule antitone in seed.",
+   note="scipy.ndimage.label / find_objects contracts, numpy any/where/mask semantics assumed; floats as reals"),
  "C04": dict(ref="§4 C04",
    text="Proof (any number of components, every subset of free parameters): each row appended by jacobian equals the mathematical partial derivative of elliptical_gaussian's own expression w.r.t. that parameter (theta per degree), rows are in component-major documented order (loop invariant over the ghost index IDX), only varying parameters get rows; lmfit_jacobian = transpose((J/errs).B); covar_errors assigns stderr(i,p) = onesigma[IDX(i)+rank(i,p)] (loop invariant), leaves other stderr untouched, and composes the Fisher matrix as J^T inv(C) J or (JB)^T(JB).",
    note="floats as reals; numpy elementwise ops pointwise (generic pixel); linear algebra calls as structural matrix terms (inv/dot/diag/sqrt contracts assumed); derivative identities decided by the pyvc ring normaliser + z3"),
@@ -16,6 +19,9 @@ CLAIMS = {
  "C10": dict(ref="§4 C10",
    text="Proof for every image shape, WCS, region and negate flag: mask_plane blanks pixel (row r, col c) iff it was blank or its centre W(c+1, r+1) is outside the region (inside with negate) -- via the loop invariant on the (col,row) index table, the origin argument of wcs_pix2world, row-major reshape and boolean-mask assignment; other pixel values, the region and the identity of the array are unchanged; negate is the complement. mask_file masks every plane of a cube with the same wcs/region/negate and writes the result; mask_table keeps row k iff not inside(k) (inside with negate) using the named columns in (ra, dec) order with degin=True.",
    note="astropy WCS pix2world contract (origin semantics), Region.sky_within contract (C08/C09), numpy indexing/reshape, astropy Table row selection assumed; floats as reals"),
+ "C11": dict(ref="§4 C11",
+   text="Conditional proof: with a region, a label is kept iff it passes the seed rule AND one of its own pixels (row r, col c) has within(W(c+1, r+1)) -- own pixels only, axis order and origin of the pixel->sky call verified via the np.where enumeration contract; kept islands have the same box/mask as without region; order preserved; region and inputs unmodified.",
+   note="as C02 plus astropy wcs_pix2world and Region.sky_within contracts (C09/C10); 'identical fitted values' relies on the fitter receiving the same island list (not re-verified)"),
  "C12": dict(ref="§4 C12",
    text="Proof for every well-formed region state (symbolic sets, cache filled or not, depth 1..3/4): _uniq lists 4*4^d+p for all levels 1..maxdepth (encoding injective across levels), write_fits stores that list as int64 column NPIX in extension 1 with MOCORDER=maxdepth, ORDERING=NUNIQ; write_reg prints exactly one polygon per stored pixel built from healpy.boundaries(2**d, p, step=1, nest=True) with (ra/15, dec) per corner (set-loop invariant on the output multiset); save dumps the whole object and load returns it.",
    note="bounded in depth; astropy fits writer, healpy.boundaries, SkyCoord formatting, pickle, sorted/map contracts assumed"),
